@@ -139,10 +139,13 @@ def build_ops(seed: int, docs: dict[str, dict], tier: str, out_mode: str = "expl
             ops.append({"op": "USER", "action": r.choice(["write", "write", "modify", "delete", "write-generated", "delete-generated", "rmdir-models"]),
                         "where": r.choice(["root", "package", "subdir", "pkgsubdir"]), "n": r.randrange(1000)})
         elif c < 0.88:
+            # hard: the process is KILLED (no clean-up handler reaches the disk); soft: it dies of an exception
             ops.append({"op": "CRASHGEN", "doc": r.choice(names), "meta": m, "overwrite": r.random() < 0.9, "kfrac": r.random(),
-                        "torn": r.choice([None, None, 0.0, 0.5, 0.9])})
+                        "torn": r.choice([None, None, 0.0, 0.5, 0.9]), "hard": r.random() < 0.5})
         else:
-            ops.append({"op": "DISKERR", "doc": r.choice(names), "meta": m, "overwrite": True, "kfrac": r.random(), "errno": r.choice(ERRNOS)})
+            # persistent: the condition stays (a full disk stays full), every later mutating call of the command fails too
+            ops.append({"op": "DISKERR", "doc": r.choice(names), "meta": m, "overwrite": True, "kfrac": r.random(), "errno": r.choice(ERRNOS),
+                        "persistent": r.random() < 0.5})
     # a history always ends with a successful overwrite generation so that convergence is judged
     ops.append({"op": "GEN", "doc": r.choice(names), "meta": meta if not mixed_meta else r.choice(METAS), "overwrite": True})
     if tier == "thorough" and r.random() < 0.5:
@@ -368,7 +371,7 @@ class World:
 
     # ------------------------------------------------------------------ operations
     def do_gen(self, op: dict, crash_at: int | None = None, torn: float | None = None, error_at: int | None = None,
-               err: str | None = None, label: str = "") -> dict:
+               err: str | None = None, label: str = "", hard: bool = False, persistent: bool = False) -> dict:
         from sim import fsseam
 
         existed = bool(self.O and os.path.lexists(self.O))
@@ -376,7 +379,7 @@ class World:
         before_outside = self.outside_snapshot()
         cwd_before = set(os.listdir(self.cwd))
         seam = fsseam.FsSeam(self.P, crash_at=crash_at, torn=torn, error_at=error_at,
-                             error_errno=getattr(errno, err) if err else errno.ENOSPC)
+                             error_errno=getattr(errno, err) if err else errno.ENOSPC, hard=hard, error_persistent=persistent)
         os.chdir(self.cwd)
         # every generate command is a separate PROCESS in reality: give each its own process id
         self.gen_counter += 1
@@ -387,7 +390,7 @@ class World:
         finally:
             os.getpid = real_getpid  # type: ignore[assignment]
         os.chdir(self.sandbox)
-        self.log.append(f"op {label} {op['op']} doc={op['doc']} meta={op['meta']} overwrite={op.get('overwrite')} crash_at={crash_at} torn={torn} error_at={error_at}:{err} -> exit={res['exit_code']} exc={res['exception']} fired={seam.fired}")
+        self.log.append(f"op {label} {op['op']} doc={op['doc']} meta={op['meta']} overwrite={op.get('overwrite')} crash_at={crash_at} torn={torn} hard={hard} error_at={error_at}:{err} persistent={persistent} -> exit={res['exit_code']} exc={res['exception']} fired={seam.fired}")
         self.log.extend(seam.lines())
         if self.O is None:
             new = sorted(set(os.listdir(self.cwd)) - cwd_before)
@@ -538,9 +541,9 @@ class World:
                 op["k"] = k
                 op["n_ops"] = n
             if kind == "CRASHGEN":
-                self.do_gen(op, crash_at=k, torn=op.get("torn"), label=label)
+                self.do_gen(op, crash_at=k, torn=op.get("torn"), label=label, hard=bool(op.get("hard")))
             else:
-                self.do_gen(op, error_at=k, err=op["errno"], label=label)
+                self.do_gen(op, error_at=k, err=op["errno"], label=label, persistent=bool(op.get("persistent")))
         elif kind == "ENUMCRASH":
             self.enum_crash(i, op)
         else:
@@ -561,11 +564,12 @@ class World:
         for k in ks:
             for torn in (None, 0.5):
                 nviol = len(self.violations)
-                self.do_gen(dict(gen, op="CRASHGEN"), crash_at=k, torn=torn, label=f"#{i}.k{k}.{'torn' if torn else 'pre'}")
+                hard = (k + (1 if torn else 0)) % 2 == 1  # alternate kill / exception over the enumerated indices
+                self.do_gen(dict(gen, op="CRASHGEN"), crash_at=k, torn=torn, label=f"#{i}.k{k}.{'torn' if torn else 'pre'}{'.kill' if hard else ''}", hard=hard)
                 self.do_gen(gen, label=f"#{i}.k{k}.{'torn' if torn else 'pre'}.recover")
                 if len(self.violations) > nviol:
                     # explicit failing sub-history for replay / minimisation
-                    self.failing_suffix = [dict(gen, op="CRASHGEN", k=k, torn=torn), gen]
+                    self.failing_suffix = [dict(gen, op="CRASHGEN", k=k, torn=torn, hard=hard), gen]
                     return
                 shutil.rmtree(self.P)
                 shutil.copytree(saved, self.P, symlinks=True)
@@ -625,14 +629,14 @@ def _shape(o: dict) -> str:
     if o["op"] == "USER":
         return "U" + o["action"][0]
     if o["op"] == "CRASHGEN":
-        return "C" + ("t" if o.get("torn") is not None else "")
+        return "C" + ("t" if o.get("torn") is not None else "") + ("k" if o.get("hard") else "")
     if o["op"] == "DISKERR":
         return "D"
     return "E"
 
 
 def _brief(o: dict) -> dict:
-    return {k: v for k, v in o.items() if k in ("op", "doc", "meta", "overwrite", "k", "torn", "errno", "action", "where", "n_ops")}
+    return {k: v for k, v in o.items() if k in ("op", "doc", "meta", "overwrite", "k", "torn", "errno", "action", "where", "n_ops", "hard", "persistent")}
 
 
 # ---------------------------------------------------------------------- shrinking
@@ -665,6 +669,10 @@ def shrink_candidates(spec: dict) -> list[dict]:
     for i, o in enumerate(ops):
         if o["op"] in ("CRASHGEN", "DISKERR"):
             out.append(with_ops(ops[:i] + [dict(o, op="GEN")] + ops[i + 1 :]))
+            if o.get("hard"):
+                out.append(with_ops(ops[:i] + [dict(o, hard=False)] + ops[i + 1 :]))
+            if o.get("persistent"):
+                out.append(with_ops(ops[:i] + [dict(o, persistent=False)] + ops[i + 1 :]))
             if o.get("torn") is not None:
                 out.append(with_ops(ops[:i] + [dict(o, torn=None)] + ops[i + 1 :]))
         if o.get("meta") not in (None, "none"):
